@@ -221,15 +221,35 @@ func (its *TransactionDatatype) DoTransaction(
 	return nil
 }
 
+// decodeUnit turns the model operations of one unit into operations; a body that cannot be decoded is an error.
+func (its *TransactionDatatype) decodeUnit(unit []*model.Operation) (ops []iface.Operation, err errors.OrdaError) {
+	defer func() {
+		if r := recover(); r != nil {
+			ops, err = nil, errors.DatatypeTransaction.New(its.L(), "undecodable operation in a unit")
+		}
+	}()
+	for _, modelOp := range unit {
+		ops = append(ops, operations.ModelToOperation(modelOp))
+	}
+	return ops, nil
+}
+
 // ExecuteRemoteTransactionWithCtx is a method to execute a transaction of remote operations
 func (its *TransactionDatatype) ExecuteRemoteTransactionWithCtx(
 	transaction []*model.Operation,
 	currentTxCtx *TransactionContext,
 	obtainList bool,
 ) ([]interface{}, errors.OrdaError) {
+	// The whole unit is decoded before any of it is executed: an operation whose body cannot be decoded refuses the
+	// unit as a whole. (Decoding used to happen one operation at a time in the loop below and panics on a malformed
+	// body, after the operations in front of it had been executed; the deferred EndTransaction then committed them.)
+	decoded, dErr := its.decodeUnit(transaction)
+	if dErr != nil {
+		return nil, dErr
+	}
 	var txCtx *TransactionContext
 	if len(transaction) > 1 {
-		txOp, ok := operations.ModelToOperation(transaction[0]).(*operations.TransactionOperation)
+		txOp, ok := decoded[0].(*operations.TransactionOperation)
 		if !ok {
 			return nil, errors.DatatypeTransaction.New(its.L(), "no transaction operation")
 		}
@@ -242,11 +262,10 @@ func (its *TransactionDatatype) ExecuteRemoteTransactionWithCtx(
 				// _ = log.OrdaError(err)
 			}
 		}()
-		transaction = transaction[1:]
+		decoded = decoded[1:]
 	}
 	var opList []interface{}
-	for _, modelOp := range transaction {
-		op := operations.ModelToOperation(modelOp)
+	for _, op := range decoded {
 		if obtainList {
 			opList = append(opList, op.ToJSON())
 		}
